@@ -9,7 +9,8 @@ import c05
 CONFIGS = ['prod']
 EXPLANATION = (
     'The whole property (convergence for all histories, delivery schedules and repair orders) is a runtime statement and is NOT decided. '
-    'Decided necessary conditions of repair-based convergence: S1 source-id discipline — every keyspace message built on the client / '
+    'S3.SEM: the supervision of one repair exchange interpreted against scripted progress histories and both outcomes of the removal task (Ok <=> done seen, never expired, removals joined '
+    'and succeeded). Decided necessary conditions of repair-based convergence: S1 source-id discipline — every keyspace message built on the client / '
     'consistency-service path carries the ordered-stream source id and every one built on the repair path carries the repair source id, '
     'the two constants differ and are below the number of sources (mixing the ordered and the unordered stream on one source makes a '
     'replica refuse operations it lacks, permanently); S2 every locally accepted client mutation is handed to the batch distributor on '
